@@ -71,7 +71,6 @@ type closure struct {
 
 type bad struct{}
 
-
 func (x array) eq(t types.Type, _y any) bool {
 	y := _y.(array)
 	tElt := t.Underlying().(*types.Array).Elem()
@@ -344,7 +343,6 @@ func (it *stringIter) next() tuple {
 	it.i += n
 	return okv
 }
-
 
 // omap is the executor's Go map: entries in insertion order, key equality
 // decided by eqValue (forking when keys are symbolic).
